@@ -778,6 +778,16 @@ func (st *state) applyDefaults(instancep reflect.Value, schema *Schema) (err err
 						if err := st.applyDefaults(lvalue, subschema); err != nil {
 							return err
 						}
+						if c := lvalue.Elem(); c.Kind() == reflect.Interface && !c.IsNil() {
+							c = c.Elem()
+							if c.Kind() == reflect.Map && c.Len() == 0 {
+								// No default was applicable below (they are all on required
+								// properties): don't insert an empty container.
+								continue
+							}
+						} else if c.Kind() == reflect.Map && c.Len() == 0 {
+							continue
+						}
 						instance.SetMapIndex(mapKey(instance, prop), lvalue.Elem())
 					}
 				}
